@@ -7,7 +7,8 @@
 (* itself in always finds the lock attached.                                                                                  *)
 EXTENDS Naturals, Integers, Sequences, FiniteSets, TLC
 CONSTANTS Procs, Nodes, PoolLocks, Iter,
-          EarlyRelease     \* TRUE: unlock() hands the lock back whenever it sees refs = 1 *before* taking the spin bit (broken)
+          EarlyRelease,    \* TRUE: unlock() hands the lock back whenever it sees refs = 1 *before* taking the spin bit (broken)
+          ClearLate        \* TRUE: seeded change C22: the last owner clears m_pLock after it has released the spin bit
 NULL == 0
 (* --algorithm PoolMonitor {
 variables
@@ -49,8 +50,9 @@ U2:   cur := refspin[node].refs;
 U3:   if (refspin[node] = [spin |-> FALSE, refs |-> cur]) {          \* CAS( cur, cur | spin )
         refspin[node] := [spin |-> TRUE, refs |-> cur];
       } else { cur := refspin[node].refs; goto U3; };
-U4:   if (cur = 1 \/ rel # NULL) { rel := plock[node]; plock[node] := NULL; };
+U4:   if (cur = 1 \/ rel # NULL) { rel := plock[node]; if (~ClearLate) { plock[node] := NULL; }; };
 U5:   refspin[node] := [spin |-> FALSE, refs |-> cur - 1];
+U5a:  if (ClearLate /\ rel # NULL) { plock[node] := NULL; };
 U6:   if (rel # NULL) {
         ok := ok /\ held[rel] = NULL /\ (\A m \in Nodes : plock[m] # rel);
         pool := pool \cup {rel}; rel := NULL;                        \* m_Pool.deallocate
@@ -170,7 +172,10 @@ U3(self) == /\ pc[self] = "U3"
 U4(self) == /\ pc[self] = "U4"
             /\ IF cur[self] = 1 \/ rel[self] # NULL
                   THEN /\ rel' = [rel EXCEPT ![self] = plock[node[self]]]
-                       /\ plock' = [plock EXCEPT ![node[self]] = NULL]
+                       /\ IF ~ClearLate
+                             THEN /\ plock' = [plock EXCEPT ![node[self]] = NULL]
+                             ELSE /\ TRUE
+                                  /\ plock' = plock
                   ELSE /\ TRUE
                        /\ UNCHANGED << plock, rel >>
             /\ pc' = [pc EXCEPT ![self] = "U5"]
@@ -178,8 +183,17 @@ U4(self) == /\ pc[self] = "U4"
 
 U5(self) == /\ pc[self] = "U5"
             /\ refspin' = [refspin EXCEPT ![node[self]] = [spin |-> FALSE, refs |-> cur[self] - 1]]
-            /\ pc' = [pc EXCEPT ![self] = "U6"]
+            /\ pc' = [pc EXCEPT ![self] = "U5a"]
             /\ UNCHANGED << plock, pool, held, incs, ok, it, node, cur, l, rel >>
+
+U5a(self) == /\ pc[self] = "U5a"
+             /\ IF ClearLate /\ rel[self] # NULL
+                   THEN /\ plock' = [plock EXCEPT ![node[self]] = NULL]
+                   ELSE /\ TRUE
+                        /\ plock' = plock
+             /\ pc' = [pc EXCEPT ![self] = "U6"]
+             /\ UNCHANGED << refspin, pool, held, incs, ok, it, node, cur, l, 
+                             rel >>
 
 U6(self) == /\ pc[self] = "U6"
             /\ IF rel[self] # NULL
@@ -193,7 +207,7 @@ U6(self) == /\ pc[self] = "U6"
 
 P(self) == L0(self) \/ K1(self) \/ K2(self) \/ K3(self) \/ K4(self)
               \/ K5(self) \/ C1(self) \/ C2(self) \/ U1(self) \/ U2(self)
-              \/ U3(self) \/ U4(self) \/ U5(self) \/ U6(self)
+              \/ U3(self) \/ U4(self) \/ U5(self) \/ U5a(self) \/ U6(self)
 
 (* Allow infinite stuttering to prevent deadlock on termination. *)
 Terminating == /\ \A self \in ProcSet: pc[self] = "Done"
